@@ -3608,6 +3608,8 @@ static void free_precondition_asserts(ASTNode **nodes, int count) {
 
 /* Forward declaration for clone_ast_node */
 static ASTNode *clone_ast_node(const ASTNode *node);
+/* Line of the first expression clone_ast_node could not copy (0 = none) */
+static int clone_unsupported_line = 0;
 
 /* Helper to clone an AST node (deep copy) */
 static ASTNode *clone_ast_node(const ASTNode *node) {
@@ -3658,10 +3660,23 @@ static ASTNode *clone_ast_node(const ASTNode *node) {
         case AST_ASSERT:
             cloned->as.assert.condition = clone_ast_node(node->as.assert.condition);
             break;
-        /* Add more cases as needed */
+        case AST_FIELD_ACCESS:
+            cloned->as.field_access.object = clone_ast_node(node->as.field_access.object);
+            cloned->as.field_access.field_name = node->as.field_access.field_name ? strdup(node->as.field_access.field_name) : NULL;
+            break;
+        case AST_TUPLE_INDEX:
+            cloned->as.tuple_index.tuple = clone_ast_node(node->as.tuple_index.tuple);
+            cloned->as.tuple_index.index = node->as.tuple_index.index;
+            break;
         default:
-            /* For unhandled types, just copy the node structure */
-            /* This is a simplified implementation - full implementation would handle all types */
+            /* A node kind this helper cannot copy: a zeroed node of that kind would reach the
+             * later passes with NULL children.  Leave a well-formed placeholder and let the
+             * caller report the clause as unsupported. */
+            cloned->type = AST_BOOL;
+            cloned->as.bool_val = true;
+            if (!clone_unsupported_line) {
+                clone_unsupported_line = node->line > 0 ? node->line : -1;
+            }
             break;
     }
 
@@ -3697,6 +3712,12 @@ static void substitute_identifier(ASTNode *node, const char *old_name, const cha
         case AST_ASSERT:
             substitute_identifier(node->as.assert.condition, old_name, new_name);
             break;
+        case AST_FIELD_ACCESS:
+            substitute_identifier(node->as.field_access.object, old_name, new_name);
+            break;
+        case AST_TUPLE_INDEX:
+            substitute_identifier(node->as.tuple_index.tuple, old_name, new_name);
+            break;
         /* Add more cases as needed */
         default:
             break;
@@ -3726,6 +3747,12 @@ static void update_ast_location(ASTNode *node, int line, int column) {
             break;
         case AST_ASSERT:
             update_ast_location(node->as.assert.condition, line, column);
+            break;
+        case AST_FIELD_ACCESS:
+            update_ast_location(node->as.field_access.object, line, column);
+            break;
+        case AST_TUPLE_INDEX:
+            update_ast_location(node->as.tuple_index.tuple, line, column);
             break;
         case AST_IDENTIFIER:
         case AST_NUMBER:
@@ -4065,7 +4092,13 @@ static ASTNode *parse_function(Stage1Parser *p, bool is_extern, bool is_pub) {
 
         /* Inject postconditions before return statements */
         if (postcondition_count > 0) {
+            clone_unsupported_line = 0;
             transform_returns_in_block(body, postconditions, postcondition_count, return_type);
+            if (clone_unsupported_line) {
+                parser_error(p, line, column, "Error at line %d, column %d: an 'ensures' clause of this function uses an expression form that is not supported in postconditions\n",
+                        line, column);
+                clone_unsupported_line = 0;
+            }
         }
     }
     /* Extern functions have no body - declaration only */
